@@ -865,8 +865,8 @@ pub fn check_c15(tier: &str) -> i32 {
                 // plan A: every gate answer of the f64 alphabet, default value answers; plan B: gates {fires, declines},
                 // one value deviation per step (e.g. the boundary table index that yields NaN)
                 let mut plans: Vec<Opts> = vec![Opts {
-                    max_depth: if quick { 1 } else { 2 },
-                    max_memo: if quick { 2 } else { 3 },
+                    max_depth: if quick || list.len() > 1 { 1 } else { 2 },
+                    max_memo: 2,
                     dev_budget: 0,
                     ref_in_key: false,
                     gate_alphabet: if list.len() == 1 { crate::script::F64_ALPHABET[1..].to_vec() } else { vec![2.0, -1.0, f64::NAN] },
